@@ -258,6 +258,7 @@ def main():
         return run.finish(dict(evaluations=0), [], [])
     wd = scratch_dir()
     run.check_proofs(deps=['theories/Model/Cond.vo', 'theories/Proofs/CondProofs.vo', 'theories/Proofs/IncludeProofs.vo'])
+    NCORPUS = run_corpus(run, PID, src)          # minimised past failures first
     rc, o, e = sh([os.path.join(VERIF, 'ocaml/build.sh')], timeout=900)
     if rc != 0:
         run.corr_broken.append('extracted model does not build: ' + (o + e)[-300:])
